@@ -55,7 +55,7 @@ def c05_tables(tier, seed):
             return tot if a <= b else -tot
         # the same correlation ASSEMBLED BY MERGES (as a library with includes does): table first and reference values later, reference
         # values first and table later, or wrong reference values overwritten afterwards
-        recipe = rnd.choice(['table-then-refs', 'refs-then-table', 'overwrite-refs', 'H-then-S'])
+        recipe = rnd.choice(['table-then-refs', 'refs-then-table', 'overwrite-refs', 'H-then-S', 'overwrite-table-values'])
         tab, rg = {float(Ts[i]): Cps[i] for i in order}, (float(lo), float(hi))
         try:
             with real.quiet():
@@ -65,6 +65,11 @@ def c05_tables(tier, seed):
                 elif recipe == 'refs-then-table':
                     cm = ThermochemIncomplete(H, S, {}, float(T_ref), None)
                     cm.update(ThermochemIncomplete(None, None, tab, float(T_ref), rg))
+                elif recipe == 'overwrite-table-values':
+                    # a first version of the table with other VALUES at the same temperatures, revised afterwards with overwrite (nothing else changes)
+                    cm = ThermochemIncomplete(H, S, {k_: v_ + 1.5 for k_, v_ in tab.items()}, float(T_ref), rg)
+                    cm.get_HoRT(float(T_ref))
+                    cm.update(ThermochemIncomplete(None, None, tab, float(T_ref), rg), overwrite=True)
                 elif recipe == 'overwrite-refs':
                     cm = ThermochemIncomplete(H + 7.0, S + 3.0, tab, float(T_ref), rg)
                     cm.update(ThermochemIncomplete(H, S, {}, float(T_ref), None), overwrite=True)
@@ -743,6 +748,26 @@ def c13_merges(tier, seed):
             if kind_ == 'exc' or state(lib['C(C)(H)3']['thermochem']) != ref:
                 viol.append({'id': 'nested-include-through-%s' % top_inc[0], 'input': 'library (H) -> %s (other group only) -> s, c, c2' % top_inc[0],
                              'observed': lib if kind_ == 'exc' else state(lib['C(C)(H)3']['thermochem']), 'expected': ref})
+        # the same RELATIVE include name in two directories denotes two files: x/a.yaml -> x/common.yaml (H), y/b.yaml -> y/common.yaml (S and the tables)
+        write_library(os.path.join(tmp, 'x'), 'common.yaml', units, {'C(C)(H)3': fileparts['h.yaml']})
+        write_library(os.path.join(tmp, 'x'), 'a.yaml', units, {}, include=['common.yaml'])
+        write_library(os.path.join(tmp, 'y'), 'common.yaml', units, {'C(C)(H)3': fileparts['s.yaml']}, include=['../c.yaml', '../c2.yaml'])
+        write_library(os.path.join(tmp, 'y'), 'b.yaml', units, {}, include=['common.yaml'])
+        for top_inc in (['x/a.yaml', 'y/b.yaml'], ['y/b.yaml', 'x/a.yaml']):
+            p = write_library(tmp, 'library.yaml', units, {}, include=top_inc)
+            n += 1
+            kind_, lib = real.outcome(GroupLibrary.Load, p)
+            if kind_ == 'exc' or state(lib['C(C)(H)3']['thermochem']) != ref:
+                viol.append({'id': 'same-include-name-in-two-directories-%s' % top_inc[0][0], 'input': 'library -> %s; x/a.yaml -> common.yaml (H), y/b.yaml -> common.yaml (S, tables)' % top_inc,
+                             'observed': lib if kind_ == 'exc' else state(lib['C(C)(H)3']['thermochem']), 'expected': ref})
+        # a diamond: one file reached through two includes (the same data twice changes nothing)
+        write_library(tmp, 'd1.yaml', units, {}, include=['h.yaml', 's.yaml'])
+        write_library(tmp, 'd2.yaml', units, {}, include=['h.yaml', 'c.yaml', 'c2.yaml'])
+        p = write_library(tmp, 'library.yaml', units, {}, include=['d1.yaml', 'd2.yaml'])
+        n += 1
+        kind_, lib = real.outcome(GroupLibrary.Load, p)
+        if kind_ == 'exc' or state(lib['C(C)(H)3']['thermochem']) != ref:
+            viol.append({'id': 'diamond-include', 'input': 'library -> d1 (h, s), d2 (h, c, c2)', 'observed': lib if kind_ == 'exc' else state(lib['C(C)(H)3']['thermochem']), 'expected': ref})
         # an empty piece: the group is listed without any property set in the including file (or in a sibling), all its data come from includes
         write_library(tmp, 'empty.yaml', units, {'C(C)(H)3': None})
         for label, top_groups, top_inc in (('listed-empty-in-the-including-file', {'C(C)(H)3': None}, ['h.yaml', 's.yaml', 'c.yaml', 'c2.yaml']),
@@ -1277,7 +1302,8 @@ def c16_rewriter(tier, seed):
     from pgradd.RINGParser.Reader import Read
     from pgradd.Error import RINGReaderError
     rnd = random.Random(seed)
-    smiles = ['C', 'CC', 'CCC', 'C=C', 'CCO', 'CO', 'C=CC', '[CH2][CH2]', '[CH2]C[CH2]', '[CH2]C', '[CH2]CC', 'C[CH][CH2]', 'OO', 'C1CC1',
+    # (the same species also under other atom orders: a rule object is run on all of them, one after the other)
+    smiles = ['C', 'CC', 'CCC', 'C=C', 'CCO', 'OCC', 'C(O)C', 'CO', 'OC', 'C=CC', 'CC=C', '[CH2][CH2]', '[CH2]C[CH2]', '[CH2]C', '[CH2]CC', 'C[CH][CH2]', 'OO', 'C1CC1',
               '[CH]=[CH]', '[CH2][CH]=[CH][CH2]', 'C#C', 'C=CC#C', '[CH2][CH][C]=[CH]']
     viol, n, distinct, samples = [], 0, 0, []
     BT = Chem.BondType
@@ -1499,7 +1525,7 @@ def c17_closure(tier, seed):
                             a.SetNoImplicit(True)
                             a.UpdatePropertyCache(strict=False)
                         Chem.AssignRadicals(p)
-                        Chem.FastFindRings(p)          # products of RunReactants carry no ring information; ring primitives in a rule need it
+                        Chem.GetSymmSSSR(p)            # products of RunReactants carry no ring information; ring primitives in a rule (@, R<n>, r<n>) are defined over the SSSR
                         if any(pt.GetDefaultValence(a.GetAtomicNum()) < a.GetTotalValence() for a in p.GetAtoms()):
                             continue
                         k = key(p)
@@ -1516,10 +1542,17 @@ def c17_closure(tier, seed):
     rules['UP'] = '[C:1][C:2]>>[C:1]=[C:2]'
     # deterministic cases of the recorded findings K8 (the generator's species comparison ignores charge and isotope: a generated species that
     # differs from a listed one only in these is dropped) and K9 (an aromatic seed and its generated Kekule form are listed as two species)
+    rules['DOWN'] = '[C:1]=[C:2]>>[C:1][C:2]'
+    # bond-order rules (species of unchanged size are regenerated: ethene -> the diradical -> ethene) next to seeds with the SAME number of atoms
+    extra_cases = [(['C=C', 'CO'], ['UP', 'DOWN']), (['CO', 'C=C'], ['UP', 'DOWN']), (['C=C'], ['DOWN', 'UP']), (['C=CC', 'CCO'], ['DOWN', 'UP', 'CH'][:2]), (['[CH2][CH2]', 'OO'], ['UP', 'DOWN'])]
+    # ring primitives that count rings / give the smallest ring size, on a fused bicycle (bicyclobutane): the ring membership of every generated species matters
+    rules['r3'] = '[C;r3:1][H:2]>>[C:1].[H:2]'
+    rules['R2'] = '[C;R2:1][H:2]>>[C:1].[H:2]'
+    extra_cases += [(['C1C2CC12'], ['r3']), (['C1C2CC12'], ['R2']), (['[CH]1C2CC12'], ['r3'])]
     known_cases = [(['[2H]C'], ['CH'], 'K8:lax-species-identity'), (['C[NH3+]', 'N'], ['CN'], 'K8:lax-species-identity'), (['N', '[NH4+]'], ['NH'], 'K8:lax-species-identity'),
                    (['c1ccccc1', 'C1=C[CH][CH]C=C1'], ['UP'], 'K9:kekule-form-listed-twice')]
     with real.quiet():
-        for seeds, rs, kcls in [(s_, r_, None) for s_ in seedsets for r_ in rulesets] + known_cases:
+        for seeds, rs, kcls in [(s_, r_, None) for s_ in seedsets for r_ in rulesets] + [(s_, r_, None) for s_, r_ in extra_cases] + known_cases:
             if True:
                 n += 1
                 try:
@@ -1560,10 +1593,13 @@ def c17_closure(tier, seed):
         rules['RC'] = '[CX3:1]-[CX4:2]>>[C:1].[C:2]'
         rules['CR'] = '[CX4:1]-[CX3:2]>>[C:1].[C:2]'
         for rk, spellings in (('CH', ['CCO', 'OCC', 'C(O)C']), ('OH', ['OCC', 'CCO']), ('CH', ['CO', 'OC']), ('RC', ['C[CH2]', '[CH2]C']), ('CR', ['C[CH2]', '[CH2]C'])):
+            # ONE rule list object for all the calls of a row: the generator replaces its entries by parsed rule objects in place, so the later
+            # calls run the very rule object the first call built
+            shared_rules = [ring[rk]]
             for smi in spellings:
                 n += 1
                 try:
-                    got = sorted(Chem.MolToSmiles(Chem.MolFromSmiles(Chem.MolToSmiles(m))) for m in GenerateRxnNet([smi], [ring[rk]]))
+                    got = sorted(Chem.MolToSmiles(Chem.MolFromSmiles(Chem.MolToSmiles(m))) for m in GenerateRxnNet([smi], shared_rules))
                 except Exception as e:    # noqa
                     got = 'raised %s: %s' % (type(e).__name__, str(e)[:80])
                 want = sorted(Chem.MolToSmiles(Chem.MolFromSmiles(x)) if Chem.MolFromSmiles(x) is not None else x for x in closure([smi], [rk]))
@@ -1907,6 +1943,70 @@ def c11_algebra(tier, seed):
                     viol.append({'id': 'op-%d-%s' % (it, opn), 'input': {'a': str(d1), 'op': opn, 'b': str(d2)}, 'observed': str(got), 'expected': str(want)})
             if len(samples) < 3:
                 samples.append({'a': str(d1), 'b': str(d2)})
+    # conversions one after the other in one process: what an earlier conversion to a unit text found must not decide a later one; != on arrays of
+    # different dimension is True (not an element-wise comparison of magnitudes)
+    import numpy as _np
+    from pgradd.Units import with_units, ArrayQuantity
+    texts = ['K', 'm', 'kJ/mol', 's', 'cm']
+    for u1 in texts:
+        for u2 in texts:
+            n += 1
+            try:
+                with_units(2.0, u1).in_units(u1)
+                got = with_units(3.0, u2).in_units(u1)
+            except UnitsError:
+                got = 'UnitsError'
+            except Exception as e:    # noqa
+                got = 'raised ' + type(e).__name__
+            compatible = base.get(u1, (None, ('x',)))[1] == base.get(u2, (None, ('y',)))[1] if (u1 in base and u2 in base) else (u1 == u2)
+            ok = (got != 'UnitsError' and not str(got).startswith('raised')) if compatible else got == 'UnitsError'
+            if not ok:
+                viol.append({'id': 'conversion-sequence-%s-%s' % (u1, u2), 'input': "with_units(2.0, %r).in_units(%r); with_units(3.0, %r).in_units(%r)" % (u1, u1, u2, u1),
+                             'observed': str(got), 'expected': 'a number' if compatible else 'UnitsError'})
+    # a numpy scalar (an element of a plain array) on the LEFT of an operator whose right operand is an array quantity: the same answer as with a
+    # Python number on the left (numpy turns scalar-first expressions into ufunc calls; the reflected operators of the quantity must still decide)
+    aq = ArrayQuantity([1., 2.], units='m')
+    import operator as _op
+    for opn, fn in (('+', _op.add), ('-', _op.sub), ('*', _op.mul), ('/', _op.truediv), ('<', _op.lt), ('>=', _op.ge), ('==', _op.eq), ('!=', _op.ne), ('**', _op.pow)):
+        for left in (2.0, 0.0):
+            n += 1
+            def outcome_(x):
+                try:
+                    r_ = fn(x, aq)
+                    if isinstance(r_, ArrayQuantity):
+                        return ('array quantity', [float(v_) for v_ in _np.asarray(r_)], str(r_._units))
+                    return (type(r_).__name__ if not isinstance(r_, (bool, _np.bool_)) else 'bool', [float(v_) for v_ in _np.ravel(_np.asarray(r_, dtype=float))])
+                except Exception as e:    # noqa
+                    return ('raised', type(e).__name__)
+            want_ = outcome_(left)
+            for mk_ in (_np.float64, _np.float32, _np.int64):
+                got_ = outcome_(mk_(left))
+                if got_ != want_:
+                    viol.append({'id': 'numpy-scalar-left-%s-%s-%s' % (fn.__name__, mk_.__name__, left), 'input': 'numpy.%s(%r) %s ArrayQuantity([1., 2.], units="m")' % (mk_.__name__, left, opn),
+                                 'observed': str(got_), 'expected': str(want_) + '  (the answer for the Python number %r)' % left,
+                                 'script': "import numpy as np\nfrom pgradd.Units import ArrayQuantity\na = ArrayQuantity([1., 2.], units='m')\nprint(np.%s(%r) %s a)\n" % (mk_.__name__, left, opn)})
+    # '//' is the classes' division (they define it so): a plain number on the left divides like '/' does
+    for left in (2.0, 2, _np.float64(2)):
+        n += 1
+        try:
+            r1, r2 = left // aq, left / aq
+            ok_ = isinstance(r1, ArrayQuantity) and isinstance(r2, ArrayQuantity) and str(r1._units) == str(r2._units) and [float(v_) for v_ in _np.asarray(r1)] == [float(v_) for v_ in _np.asarray(r2)]
+            got_ = (type(r1).__name__, str(getattr(r1, '_units', None)))
+        except Exception as e:    # noqa
+            ok_, got_ = False, 'raised ' + type(e).__name__
+        if not ok_:
+            viol.append({'id': 'floordiv-number-left-%s' % type(left).__name__, 'input': '%r // ArrayQuantity([1., 2.], units="m")' % (left,), 'observed': str(got_), 'expected': 'an array quantity in 1/m, as for /'})
+    am, as_ = ArrayQuantity([1., 2., -3.], units='m'), ArrayQuantity([1., 2., -3.], units='s')
+    for name_, f_, want_ in (('array != other dimension', lambda: am != as_, True), ('array == other dimension', lambda: am == as_, False),
+                             ('array != plain list', lambda: am != [1., 2., -3.], True), ('array != plain number', lambda: am != 1.0, True)):
+        n += 1
+        try:
+            r_ = f_()
+            got = bool(r_) if _np.ndim(r_) == 0 else [bool(x) for x in _np.ravel(r_)]
+        except Exception as e:    # noqa
+            got = 'raised ' + type(e).__name__
+        if got != want_:
+            viol.append({'id': name_.replace(' ', '-'), 'input': name_ + ' ([1, 2, -3] m against [1, 2, -3] s / a bare list / 1.0)', 'observed': str(got), 'expected': str(want_)})
     return {'name': 'quantity-algebra-random-expressions', 'evaluations': n, 'distinct_nontrivial': distinct, 'violations': viol, 'samples': samples,
             'bound': '%d random pairs of expressions (depth <= 3; dyadic powers 2, 3, -1, 0.5, 0.25, 1.5, 0, -2; half of the partners have the same dimension built another way) x 8 binary operations, against exact Fraction exponents' % N,
             'rule': 'a case is (expression a, operation, expression b); non-trivial = a evaluates to the modelled magnitude and exponents'}
